@@ -2,6 +2,7 @@ package props
 
 import (
 	"fmt"
+	"go/token"
 	"sort"
 	"strings"
 
@@ -20,6 +21,7 @@ func init() {
 		Controls: []Control{
 			{Name: "revert-F59-predicate-asked-about-absent", File: "pkg/resource/change.go", Old: "\toldInclude := c.OldValue != nil && includeFunc(c.Id, c.OldValue)\n\tnewInclude := c.NewValue != nil && includeFunc(c.Id, c.NewValue)\n", New: "\toldInclude := includeFunc(c.Id, c.OldValue)\n\tnewInclude := includeFunc(c.Id, c.NewValue)\n", Expect: "R08.1"},
 			{Name: "absent-new-value-still-asked", File: "pkg/resource/change.go", Old: "\tnewInclude := c.NewValue != nil && includeFunc(c.Id, c.NewValue)\n", New: "\tnewInclude := includeFunc(c.Id, c.NewValue)\n", Expect: "R08.1"},
+			{Name: "booking-old-value-by-change-type", File: "pkg/trait/bookingpb/model.go", Old: "\t\t\tif change.OldValue != nil {\n\t\t\t\tevent.OldValue = change.OldValue.(*traits.Booking)", New: "\t\t\tif change.ChangeType == types.ChangeType_UPDATE {\n\t\t\t\tevent.OldValue = change.OldValue.(*traits.Booking)", Expect: "R08.9"},
 			{Name: "booking-list-skips-unbounded", File: "pkg/trait/bookingpb/model_server.go", Old: "\topts := []resource.ReadOption{\n\t\tresource.WithReadMask(request.ReadMask),\n\t}\n\tif request.BookingIntersects != nil {\n\t\topts = append(opts, resource.WithInclude(func(_ string", New: "\topts := []resource.ReadOption{\n\t\tresource.WithReadMask(request.ReadMask),\n\t}\n\tif request.BookingIntersects != nil && request.BookingIntersects.StartTime != nil {\n\t\topts = append(opts, resource.WithInclude(func(_ string", Expect: "R08.7"},
 			{Name: "swap-add-remove", File: "pkg/resource/change.go", Old: "\tif newInclude {\n\t\t// treat this like an Add", New: "\tif !newInclude {\n\t\t// treat this like an Add", Expect: "R08.1"},
 			{Name: "deliver-excluded", File: "pkg/resource/change.go", Old: "if oldInclude == newInclude {", New: "if oldInclude == newInclude || true {", Expect: "R08.1"},
@@ -118,6 +120,8 @@ func runC08(c *an.Ctx) {
 	c.Min("R08.7", 2)
 	r165held(c, "R08.8") // include-driven removals and re-adds under a configured equivalence (shared with R16.5)
 	c.Min("R08.8", 2)
+	r089(c, "R08.9")
+	c.Min("R08.9", 6)
 }
 
 func changeTypeConsts(c *an.Ctx) (add, upd, rem, rep int64, ok bool) {
@@ -634,4 +638,78 @@ func r085(c *an.Ctx) {
 	c.Ok("R08.5", "mergeChanges table and published old/new values feed include correctly", 0, fmt.Sprintf("%d shared obligations discharged", nOK))
 	c.Ok("R08.5", "shared rule sets evaluated", 0, "R09.1 (merge algebra), R03.4 (published values)")
 	c.Ok("R08.5", "violations forwarded", 0, fmt.Sprintf("%d", nBad))
+}
+
+// r089: the trait models hand a collection's changes on field by field. A conversion that asserts the type of
+// change.OldValue / change.NewValue (`event.OldValue = change.OldValue.(*T)`) does so exactly when that value is
+// there: the assertion is guarded by a non-nil test of the very value it converts. Guarded by anything else (the
+// change type, the other value) the subscriber either panics on a nil interface or receives a REMOVE / REPLACE
+// without the value that left - and a change message without ids cannot be folded at all then.
+func r089(c *an.Ctx, rule string) {
+	n := 0
+	for _, fn := range c.Prog.FuncsIn("pkg/trait") {
+		if c.Prog.IsGenerated(fn.Pos()) || strings.HasSuffix(c.Prog.RelFile(fn.Pos()), "_test.go") {
+			continue
+		}
+		ord := 0
+		an.Instrs(fn, func(in ssa.Instruction) {
+			ta, ok := in.(*ssa.TypeAssert)
+			if !ok || ta.CommaOk {
+				return
+			}
+			fld := ""
+			for _, s := range an.Sources(ta.X) {
+				if u, isU := s.(*ssa.UnOp); isU && u.Op == token.MUL {
+					if _, sn, f, isF := an.FieldOf(u.X); isF && strings.HasSuffix(sn, "pkg/resource.CollectionChange") && (f == "OldValue" || f == "NewValue") {
+						fld = f
+					}
+				}
+			}
+			if fld == "" {
+				return
+			}
+			ord++
+			n++
+			guarded := false
+			for _, e := range an.GuardingEdges(ta) {
+				x, trueMeansNil, ok := an.NilTest(e.If.Cond)
+				if !ok || e.Branch == trueMeansNil {
+					continue
+				}
+				if an.AccessPath(x) != "" && an.AccessPath(x) == an.AccessPath(ta.X) {
+					guarded = true
+				}
+				// two loads of the same field of the same change
+				if b1, f1, ok1 := fieldLoadOf(x); ok1 {
+					if b2, f2, ok2 := fieldLoadOf(ta.X); ok2 && b1 == b2 && f1 == f2 {
+						guarded = true
+					}
+				}
+				for _, a := range an.Sources(x) {
+					for _, b := range an.Sources(ta.X) {
+						if a == b {
+							guarded = true
+						}
+					}
+				}
+			}
+			c.Check(guarded, rule, fmt.Sprintf("%s|conversion #%d of change.%s happens exactly when it is set", an.FuncName(fn), ord, fld), ta.Pos(), "guarded by a non-nil test of the same value",
+				"change."+fld+" is converted under a condition that is not `change."+fld+" != nil`: where the two differ the subscriber gets a change without the value (a REMOVE with nothing removed) or the conversion panics on a nil interface")
+		})
+	}
+	c.Count("change_value_conversions", n)
+}
+
+// fieldLoadOf: v = *(&base.f) -> (base, f).
+func fieldLoadOf(v ssa.Value) (ssa.Value, string, bool) {
+	u, ok := v.(*ssa.UnOp)
+	if !ok || u.Op != token.MUL {
+		return nil, "", false
+	}
+	fa, ok := u.X.(*ssa.FieldAddr)
+	if !ok {
+		return nil, "", false
+	}
+	_, _, f, isF := an.FieldOf(fa)
+	return fa.X, f, isF
 }
